@@ -73,6 +73,10 @@ imb_quic_chacha20_poly1305(IMB_MGR *state, const void *key, const IMB_CIPHER_DIR
                 imb_set_errno(state, IMB_ERR_NULL_AUTH);
                 return;
         }
+        if (len_array == NULL) {
+                imb_set_errno(state, IMB_ERR_CIPH_LEN);
+                return;
+        }
         for (n = 0; n < num_packets; n++) {
                 if (dst_ptr_array[n] == NULL && len_array[n] != 0) {
                         imb_set_errno(state, IMB_ERR_NULL_DST);
